@@ -46,6 +46,12 @@ def find_parse_args(ctx: Ctx) -> FuncInfo:
     if len(cands) > 1:
         # the one that also turns the parsed namespace into the Options record
         with_opts = [f for f in cands if builds_options(f)]
+        if len(with_opts) > 1:
+            # a parser function that nobody calls any more (its body was written out in main) does not count
+            from .common import callers_index
+
+            live = [f for f in with_opts if f.name == "main" or callers_index(ctx.prog).get(f.qual)]
+            with_opts = live or with_opts
         if len(with_opts) != 1:
             raise AnalysisError("the argument parsers of flowmark.cli are built in functions other than the one that fills Options; "
                                 "cannot model the CLI from the source as written")
@@ -274,6 +280,9 @@ def _is_options_origin(ctx: Ctx, o) -> bool:
     if o[0] == "unpack" and o[2] == 0 and o[1][0] == "call" and o[1][1] == find_parse_args(ctx).qual:
         return True
     if o[0] == "param" and o[1] in ("options", "opts"):
+        return True
+    # the record built in place (the parser function spliced into its caller): Options(...) itself
+    if o[0] == "call" and isinstance(o[1], str) and o[1].endswith(":Options") and o[1].startswith("class:"):
         return True
     return False
 
